@@ -216,7 +216,8 @@ class EncodeState:
         elif base_data_type == DataType.A_UINT32:
             if not isinstance(internal_value, int) or internal_value < 0:
                 odxraise(f"Internal value must be a positive integer, not {internal_value!r}")
-                internal_value = abs(int(internal_value))
+                internal_value = abs(int(internal_value)) if isinstance(internal_value,
+                                                                        (int, float)) else 0
 
             if base_type_encoding == Encoding.BCD_P:
                 # packed BCD
